@@ -678,6 +678,163 @@ theorem C04_gen_r2s_methods : ValCvt.r2sEntryMethods =
      "PostsolveNamesEntry", "PostsolveSolutionEntry", "PresolveBasisEntry", "PresolveGenericDblEntry", "PresolveGenericIntEntry",
      "PresolveIISEntry", "PresolveLazyUserCutFlagsEntry", "PresolveNamesEntry", "PresolveSolutionEntry"] := by decide
 
+/-! ### The control structure as a generated PROGRAMME (round 7): semantic tie instead of the string comparisons above
+
+`ValCvt.runTables` is regenerated from `ValuePresolverImpl::RunPresolve / RunPostsolve`, the 28 methods of `CopyLink` / `Many2ManyLink`
+with the range helpers they call, `Distr` / `Collect` (written parameter) and the macro-generated loops of `BasicIndivEntryLink`.
+`execRun` (RunLang.lean) interprets it on link RANGES (`brl_` as it is: a list of (link, entries of its index range)); the theorem says
+that this is `runFromReg` on the flattened entry list — for every range list, sizes, memory and call. -/
+
+theorem foldl_congr_mem {α β : Type} (f g : β → α → β) (l : List α) (S : β) (h : ∀ e ∈ l, ∀ S, f S e = g S e) :
+    l.foldl f S = l.foldl g S := by
+  induction l generalizing S with
+  | nil => rfl
+  | cons a l ih =>
+    simp only [List.foldl_cons]
+    rw [h a (by simp)]
+    exact ih _ (fun e he => h e (by simp [he]))
+
+theorem runEntriesPost_of_total (k : Kind) (f : St → Entry → St) (l : List Entry) (S : St)
+    (h : ∀ e ∈ l, ∀ S, postEntry k e S = some (f S e)) : runEntriesPost k l S = some (l.foldl f S) := by
+  induction l generalizing S with
+  | nil => rfl
+  | cons a l ih =>
+    simp only [runEntriesPost, List.foldl_cons]
+    rw [h a (by simp)]
+    exact ih _ (fun e he => h e (by simp [he]))
+
+open MpVerif.Gen in
+theorem C04_gen_link_progs_copy (d : Dir) (k : Kind) : lookupProg ValCvt.runTables .copyLink (methodName d k) =
+    some (match d with | .pre => ⟨.fwd, .copy, .first, .second⟩ | .post => ⟨.bwd, .copy, .second, .first⟩) := by
+  cases d <;> cases k <;> decide
+
+open MpVerif.Gen in
+theorem C04_gen_link_progs_m2m (d : Dir) (k : Kind) : lookupProg ValCvt.runTables .m2mLink (methodName d k) =
+    some (match d with | .pre => ⟨.fwd, .distr, .first, .second⟩ | .post => ⟨.bwd, .collect, .first, .second⟩) := by
+  cases d <;> cases k <;> decide
+
+open MpVerif.Gen in
+theorem C04_gen_indiv_loops (d : Dir) (k : Kind) : lookupIndiv ValCvt.runTables (methodName d k) =
+    some (match d with | .pre => .fwd | .post => .bwd, methodName d k ++ "Entry") := by
+  cases d <;> cases k <;> decide
+
+theorem LRange.wf_mem {r : LRange} (h : r.wf = true) {e : Entry} (he : e ∈ r.entries) : e.cls = r.cls := by
+  simp only [LRange.wf, List.all_eq_true, beq_iff_eq] at h
+  exact h e he
+
+open MpVerif.Gen in
+theorem execRange_pre (k : Kind) (r : LRange) (hwf : r.wf = true) (S : St) :
+    execRange ValCvt.runTables .pre k r S = some (r.entries.foldl (fun S e => preEntry k e S) S) := by
+  unfold execRange
+  cases hc : r.cls with
+  | r2sLink => simp only [C04_gen_indiv_loops, if_true, orderBy]
+  | copyLink =>
+    simp only [C04_gen_link_progs_copy, orderBy, Option.some.injEq]
+    apply foldl_congr_mem
+    intro e he S
+    have := LRange.wf_mem hwf he
+    rw [hc] at this
+    cases e with
+    | copy s d => rfl
+    | m2m s d => cases this
+    | r2s a b c d => cases this
+  | m2mLink =>
+    simp only [C04_gen_link_progs_m2m, orderBy, Option.some.injEq]
+    apply foldl_congr_mem
+    intro e he S
+    have := LRange.wf_mem hwf he
+    rw [hc] at this
+    cases e with
+    | copy s d => cases this
+    | m2m s d => rfl
+    | r2s a b c d => cases this
+
+open MpVerif.Gen in
+theorem execRange_post (k : Kind) (r : LRange) (hwf : r.wf = true) (S : St) :
+    execRange ValCvt.runTables .post k r S = runEntriesPost k r.entries.reverse S := by
+  unfold execRange
+  cases hc : r.cls with
+  | r2sLink => simp only [C04_gen_indiv_loops, if_true, orderBy]
+  | copyLink =>
+    simp only [C04_gen_link_progs_copy, orderBy]
+    symm
+    apply runEntriesPost_of_total
+    intro e he S
+    have := LRange.wf_mem hwf (List.mem_reverse.mp he)
+    rw [hc] at this
+    cases e with
+    | copy s d => rfl
+    | m2m s d => cases this
+    | r2s a b c d => cases this
+  | m2mLink =>
+    simp only [C04_gen_link_progs_m2m, orderBy]
+    symm
+    apply runEntriesPost_of_total
+    intro e he S
+    have := LRange.wf_mem hwf (List.mem_reverse.mp he)
+    rw [hc] at this
+    cases e with
+    | copy s d => cases this
+    | m2m s d => rfl
+    | r2s a b c d => cases this
+
+open MpVerif.Gen in
+theorem execRanges_pre (k : Kind) (rs : List LRange) (hwf : ∀ r ∈ rs, r.wf = true) (S : St) :
+    execRanges ValCvt.runTables .pre k rs S = some ((rs.map (·.entries)).flatten.foldl (fun S e => preEntry k e S) S) := by
+  induction rs generalizing S with
+  | nil => rfl
+  | cons r rs ih =>
+    simp only [execRanges, execRange_pre k r (hwf r (by simp)), Option.bind_some, List.map_cons, List.flatten_cons, List.foldl_append]
+    exact ih (fun r' hr' => hwf r' (by simp [hr'])) _
+
+open MpVerif.Gen in
+theorem execRanges_post (k : Kind) (rs : List LRange) (hwf : ∀ r ∈ rs, r.wf = true) (S : St) :
+    execRanges ValCvt.runTables .post k rs S = runEntriesPost k (rs.map (fun r => r.entries.reverse)).flatten S := by
+  induction rs generalizing S with
+  | nil => rfl
+  | cons r rs ih =>
+    simp only [execRanges, execRange_post k r (hwf r (by simp)), List.map_cons, List.flatten_cons, runEntriesPost_append]
+    congr 1
+    funext S'
+    exact ih (fun r' hr' => hwf r' (by simp [hr'])) _
+
+open MpVerif.Gen in
+/-- **The translated control structure IS the model's run**: interpreting the programmes generated from `RunPresolve` / `RunPostsolve`,
+    the `CopyLink` / `Many2ManyLink` methods and helpers, `Distr` / `Collect` and `BasicIndivEntryLink`'s loops on any list of link ranges
+    (each range holding entries of its link's class) gives exactly `runFromReg` on the flattened entry list: clean the registered nodes
+    first, load, presolve ranges and entries forwards `first → second` / postsolve ranges and entries backwards `second → first`
+    (`Collect` writing `first`), for every kind, memory and argument. -/
+theorem C04_gen_run_is_runFromReg (sizes : List Nat) (ranges : List LRange) (hwf : ∀ r ∈ ranges, r.wf = true) (prev : St) (c : Call) :
+    execRun ValCvt.runTables sizes ranges prev c = runFromReg ⟨(ranges.map (·.entries)).flatten, sizes⟩ prev c := by
+  unfold execRun runFromReg
+  cases hd : c.dir with
+  | pre =>
+    show execStmts ValCvt.runTables _ ranges c [.cleanNodes, .load .src, .loopRanges .fwd, .ret .dest] prev = _
+    simp only [execStmts, hd, Dir.inSide, Dir.outSide, if_true, orderBy, execRanges_pre c.kind ranges hwf, Option.bind_some, runPre]
+  | post =>
+    show execStmts ValCvt.runTables _ ranges c [.cleanNodes, .load .dest, .loopRanges .bwd, .ret .src] prev = _
+    simp only [execStmts, hd, Dir.inSide, Dir.outSide, if_true, orderBy,
+      execRanges_post c.kind ranges.reverse (fun r hr => hwf r (List.mem_reverse.mp hr)), runPost]
+    have hfl : (ranges.reverse.map (fun r => r.entries.reverse)).flatten = ((ranges.map (·.entries)).flatten).reverse := by
+      rw [List.reverse_flatten, List.map_reverse, List.map_map]
+      rfl
+    rw [hfl]
+    cases runEntriesPost c.kind ((ranges.map (·.entries)).flatten).reverse
+        (loadInto (cleanReg ⟨(ranges.map (·.entries)).flatten, sizes⟩ prev) (Graph.size ⟨(ranges.map (·.entries)).flatten, sizes⟩) c.inputs) <;> rfl
+
+open MpVerif.Gen in
+/-- the `GenericInt` methods use the same programmes as the `GenericDbl` ones (the model has one `generic` kind) -/
+theorem C04_gen_run_generic_int_same :
+    (∀ d, lookupProg ValCvt.runTables .copyLink (dirName d ++ "GenericInt") = lookupProg ValCvt.runTables .copyLink (methodName d .generic)) ∧
+    (∀ d, lookupProg ValCvt.runTables .m2mLink (dirName d ++ "GenericInt") = lookupProg ValCvt.runTables .m2mLink (methodName d .generic)) ∧
+    (∀ d, (lookupIndiv ValCvt.runTables (dirName d ++ "GenericInt")).map (·.1) = (lookupIndiv ValCvt.runTables (methodName d .generic)).map (·.1)) := by
+  refine ⟨fun d => ?_, fun d => ?_, fun d => ?_⟩ <;> cases d <;> decide
+
+/-- non-vacuity: the example graph as three well-formed link ranges (CopyLink with two entries, RangeCon2Slack, CopyLink) -/
+example : (let rs : List LRange := [⟨.copyLink, exampleGraph.entries.take 2⟩, ⟨.r2sLink, (exampleGraph.entries.drop 2).take 1⟩,
+                                    ⟨.copyLink, exampleGraph.entries.drop 3⟩]
+    (rs.all LRange.wf, (rs.map (·.entries)).flatten.length == exampleGraph.entries.length)) = (true, true) := by decide
+
 /-! ### non-trivial instances of the hypotheses of the certificate / chain theorems -/
 
 /-- `C04_basis_slack` applied: the range constraint of the example graph gets the reversed status of its slack (solver: slack `upp`=4) -/
